@@ -92,7 +92,7 @@ def walk(t, obj, path):
             a = x._get_offset(p.name)
             yield from rec(child, a, parts[1:], idx, vpath + (p.name,))
         elif isinstance(p, Index):
-            for i in np.ndindex(*[int(s) for s in x._shape]):
+            for i in xt.ndindex([int(s) for s in x._shape]):
                 key = i if len(i) > 1 else i[0]
                 yield from rec(x[key], x._get_offset(key), parts[1:], idx + i, vpath + (i,))
         elif isinstance(p, xo.Ref):
@@ -112,6 +112,17 @@ def base_address(buf):
 
 def place_object(t, v, salt=0, kind="np"):
     """object at a non-zero, slot-aligned offset of a traced buffer that has already grown (relocated)"""
+    if kind == "oddrefs":
+        # the referents exist before the holder, and something of an odd size was allocated in between: the relative
+        # offsets stored in the references are not multiples of any scalar size
+        from . import cons
+
+        b = place.traced("np", 24, default_alignment=1, grow_step=None)
+        a = b.allocate(24)
+        b.update_from_buffer(a, place.poison(24, salt))
+        arg = cons.with_ref_objects(t, v, b)
+        b.allocate(3 + 2 * (salt % 2), align=False)
+        return xt.construct(t, arg, _buffer=b), b
     b = place.traced(kind, 24, default_alignment=8, grow_step=None)
     a = b.allocate(24)
     b.update_from_buffer(a, place.poison(24, salt))
